@@ -15,6 +15,13 @@ Definition res_cmp {X} (cmp : X -> X -> bool) (r o : res X) : bool :=
   | _, _ => false
   end.
 
+(* orthogonalize: when the orthogonalised row vanishes exactly (a single movable node, parallel
+   rows) the exact norm is 0 (ZeroDivisionError in the model) while in binary64 a residue of
+   1e-16 survives and the assertion "dotprod < 10e-12" fires instead: both do not return *)
+Definition ortho_cmp (tol : Qc) (r o : res (list Qc)) : bool :=
+  res_cmp (list_eqb (aclose tol)) r o ||
+  match r, o with ZeroDiv, AssertFail => true | _, _ => false end.
+
 (* one call of normalize: input, spans, flags -> observed output *)
 Definition norm_ok (thr : Qc) (k : Z) (xs spans : list Qc) (fx : list bool) (o : res (list Qc)) : bool :=
   res_cmp (list_eqb (rclose k)) (normalize thr xs spans fx) o.
